@@ -55,8 +55,36 @@ func assertedTrue(facts []Fact, v ssa.Value) bool {
 	return false
 }
 
+// headerPrecedes: the instruction `at` in the BitBuf method fn is dominated by a WriteBit(_, 3); or fn
+// is a helper all of whose call sites (in BitBuf methods) are.
+func headerPrecedes(p *Program, fn *ssa.Function, at ssa.Instruction, depth int) bool {
+	for _, o := range allCalls(fn) {
+		if staticCalleeNamed(o, deflRel, "BitBuf", "WriteBit") && dominatesInstr(o, at) {
+			if k, isK := constInt(o.Common().Args[2]); isK && k == 3 {
+				return true
+			}
+		}
+	}
+	if depth >= 2 {
+		return false
+	}
+	sites := 0
+	for _, g := range p.Funcs() {
+		for _, cc := range allCalls(g) {
+			if cc.Common().StaticCallee() != fn {
+				continue
+			}
+			sites++
+			if g.Signature.Recv() == nil || !isNamedType(g.Signature.Recv().Type(), modPath+"/"+deflRel, "BitBuf") || !headerPrecedes(p, g, cc, depth+1) {
+				return false
+			}
+		}
+	}
+	return sites > 0
+}
+
 func ruleR10_1(p *Program, r *Report) {
-	r.Expect("R10.1", 4)
+	r.Expect("R10.1", 3) // one stored-block writer (possibly shared by both markers) and the two level compressors
 	n := 0
 	for _, fn := range p.Funcs() {
 		lab := newLabeler()
@@ -69,15 +97,8 @@ func ruleR10_1(p *Program, r *Report) {
 			desc := "the bit buffer is padded to a byte boundary only inside an empty stored block or when the block just written is the final one"
 			// (a) inside a BitBuf method, after a 3-bit header write
 			if fn.Signature.Recv() != nil && isNamedType(fn.Signature.Recv().Type(), modPath+"/"+deflRel, "BitBuf") {
-				ok := false
-				for _, o := range allCalls(fn) {
-					if staticCalleeNamed(o, deflRel, "BitBuf", "WriteBit") && dominatesInstr(o, c) {
-						if k, isK := constInt(o.Common().Args[2]); isK && k == 3 {
-							ok = true
-						}
-					}
-				}
-				r.Check(ok, "R10.1", key, p.InstrPos(c), desc+" [stored-block writer: 3-bit block header precedes the padding]", "no dominating WriteBit(_, 3)")
+				ok := headerPrecedes(p, fn, c, 0)
+				r.Check(ok, "R10.1", key, p.InstrPos(c), desc+" [stored-block writer: 3-bit block header precedes the padding]", "no dominating WriteBit(_, 3), here or at every call site of this helper")
 				continue
 			}
 			// (b) under the eos value handed to the header writer in this function
@@ -508,7 +529,22 @@ func ruleR10_5(p *Program, r *Report) {
 				align = c
 			}
 		}
-		if hdrCall == nil || align == nil || !dominatesInstr(hdrCall, align) {
+		body := fn
+		if hdrCall != nil && align == nil {
+			// the common tail (alignment + LEN/NLEN) may live in a helper method called on the same buffer
+			for _, c := range allCalls(fn) {
+				g := c.Common().StaticCallee()
+				if g == nil || g.Blocks == nil || g.Signature.Recv() == nil || len(c.Common().Args) == 0 || c.Common().Args[0] != ssa.Value(fn.Params[0]) || !dominatesInstr(hdrCall, c) {
+					continue
+				}
+				for _, gc := range allCalls(g) {
+					if staticCalleeNamed(gc, deflRel, "BitBuf", "flushLastByte") {
+						body, align = g, gc
+					}
+				}
+			}
+		}
+		if hdrCall == nil || align == nil || (body == fn && !dominatesInstr(hdrCall, align)) {
 			why = "header write followed by alignment not found"
 		} else {
 			v, ok1 := constInt(hdrCall.Common().Args[1])
@@ -521,7 +557,7 @@ func ruleR10_5(p *Program, r *Report) {
 		want := map[int64]int64{0: 0x00, 1: 0x00, 2: 0xff, 3: 0xff}
 		got := map[int64]int64{}
 		var idxAdd int64 = -1
-		for _, b := range fn.Blocks {
+		for _, b := range body.Blocks {
 			for _, in := range b.Instrs {
 				st, ok := in.(*ssa.Store)
 				if !ok {
